@@ -228,17 +228,131 @@ impl SortedWritesTable {
     }
 }
 
-/// one pending row `q` applied to a set of live rows (C05: the merge is applied on every collision)
-pub open spec fn applied(n_keys: nat, before: spec_fn(Seq<Value>) -> bool, q: Seq<Value>, after: spec_fn(Seq<Value>) -> bool) -> bool {
-    if exists|cur: Seq<Value>| before(cur) && keyof(cur, n_keys) == keyof(q, n_keys) {
-        let cur = choose|cur: Seq<Value>| before(cur) && keyof(cur, n_keys) == keyof(q, n_keys);
-        if mch(cur, q) {
-            forall|r: Seq<Value>| #[trigger] after(r) <==> ((before(r) && r != cur) || r == mo(cur, q))
-        } else {
-            forall|r: Seq<Value>| #[trigger] after(r) <==> before(r)
+/// one pending row `q` applied to the table `a`, giving `b` (C05: the merge is applied on every collision):
+/// key absent -> q is stored; key present with stored row cur -> cur is replaced by the MERGED row mo(cur, q) iff the
+/// merge function reports a change, otherwise nothing changes. (Keys are unique among live rows, see wf_distinct.)
+pub open spec fn applied(n_keys: nat, a: SortedWritesTable, q: Seq<Value>, b: SortedWritesTable) -> bool {
+    &&& forall|cur: Seq<Value>| #![trigger a.live(cur)] a.live(cur) && keyof(cur, n_keys) == keyof(q, n_keys) ==>
+            (if mch(cur, q) { forall|r: Seq<Value>| #![trigger b.live(r)] b.live(r) <==> ((a.live(r) && r != cur) || r == mo(cur, q)) }
+             else { forall|r: Seq<Value>| #![trigger b.live(r)] b.live(r) <==> a.live(r) })
+    &&& (forall|cur: Seq<Value>| #![trigger a.live(cur)] a.live(cur) ==> keyof(cur, n_keys) != keyof(q, n_keys)) ==>
+            forall|r: Seq<Value>| #![trigger b.live(r)] b.live(r) <==> (a.live(r) || r == q)
+}
+
+/// the three ways one loop iteration of serial_insert relates the table before (a) and after (b)
+pub open spec fn step_same(n: nat, a: SortedWritesTable, q: Seq<Value>, b: SortedWritesTable) -> bool {
+    b.rows() =~= a.rows() && b.idx() =~= a.idx()
+    && exists|id: RowId| #[trigger] a.idx().contains_key(id) && keyof(a.rows()[id.ix() as int], n) == keyof(q, n) && !mch(a.rows()[id.ix() as int], q)
+}
+pub open spec fn step_merge(n: nat, a: SortedWritesTable, q: Seq<Value>, b: SortedWritesTable) -> bool {
+    exists|id: RowId| #[trigger] a.idx().contains_key(id) && keyof(a.rows()[id.ix() as int], n) == keyof(q, n) && mch(a.rows()[id.ix() as int], q)
+        && a.rows().len() <= u32::MAX && b.rows().len() == a.rows().len() + 1
+        && b.rows()[a.rows().len() as int] == mo(a.rows()[id.ix() as int], q)
+        && stale(b.rows()[id.ix() as int])
+        && (forall|j: int| 0 <= j < a.rows().len() && j != id.ix() ==> #[trigger] b.rows()[j] == a.rows()[j])
+        && b.idx() =~= a.idx().remove(id).insert(RowId { rep: a.rows().len() as u32 }, a.idx()[id])
+}
+pub open spec fn has_key(n: nat, a: SortedWritesTable, q: Seq<Value>) -> bool {
+    exists|id: RowId| #[trigger] a.idx().contains_key(id) && keyof(a.rows()[id.ix() as int], n) == keyof(q, n)
+}
+pub open spec fn step_new(n: nat, a: SortedWritesTable, q: Seq<Value>, b: SortedWritesTable) -> bool {
+    (forall|id: RowId| #[trigger] a.idx().contains_key(id) ==> keyof(a.rows()[id.ix() as int], n) != keyof(q, n))
+    && a.rows().len() <= u32::MAX && b.rows() =~= a.rows().push(q)
+    && exists|h: u64| b.idx() =~= #[trigger] a.idx().insert(RowId { rep: a.rows().len() as u32 }, h)
+}
+
+pub proof fn lemma_applied(n: nat, a: SortedWritesTable, q: Seq<Value>, b: SortedWritesTable)
+    requires
+        a.wf(), n == a.n_keys,
+        step_same(n, a, q, b) || step_merge(n, a, q, b) || step_new(n, a, q, b),
+    ensures applied(n, a, q, b),
+{
+    let len0 = a.rows().len() as int;
+    let newid = RowId { rep: len0 as u32 };
+    if step_new(n, a, q, b) || step_merge(n, a, q, b) {
+        assert(newid.ix() == len0);
+        assert(!a.idx().contains_key(newid)) by { if a.idx().contains_key(newid) { assert(newid.ix() < a.rows().len()); } }
+    }
+    if step_new(n, a, q, b) {
+        assert forall|cur: Seq<Value>| #![trigger a.live(cur)] a.live(cur) implies keyof(cur, n) != keyof(q, n) by {
+            let c = choose|c: RowId| #[trigger] a.idx().contains_key(c) && a.rows()[c.ix() as int] == cur;
         }
+        assert forall|r: Seq<Value>| #![trigger b.live(r)] b.live(r) <==> (a.live(r) || r == q) by {
+            if b.live(r) {
+                let c = choose|c: RowId| #[trigger] b.idx().contains_key(c) && b.rows()[c.ix() as int] == r;
+                if c != newid { assert(a.idx().contains_key(c)); assert(b.rows()[c.ix() as int] == a.rows()[c.ix() as int]); }
+            }
+            if a.live(r) {
+                let c = choose|c: RowId| #[trigger] a.idx().contains_key(c) && a.rows()[c.ix() as int] == r;
+                assert(b.idx().contains_key(c)); assert(b.rows()[c.ix() as int] == r);
+            }
+            if r == q { assert(b.idx().contains_key(newid)); assert(b.rows()[newid.ix() as int] == q); }
+        }
+    } else if step_merge(n, a, q, b) {
+        let id = choose|id: RowId| #[trigger] a.idx().contains_key(id) && keyof(a.rows()[id.ix() as int], n) == keyof(q, n) && mch(a.rows()[id.ix() as int], q)
+            && b.rows().len() == a.rows().len() + 1
+            && b.rows()[a.rows().len() as int] == mo(a.rows()[id.ix() as int], q)
+            && stale(b.rows()[id.ix() as int])
+            && (forall|j: int| 0 <= j < a.rows().len() && j != id.ix() ==> #[trigger] b.rows()[j] == a.rows()[j])
+            && b.idx() =~= a.idx().remove(id).insert(RowId { rep: a.rows().len() as u32 }, a.idx()[id]);
+        let cur0 = a.rows()[id.ix() as int];
+        assert forall|cur: Seq<Value>| #![trigger a.live(cur)] a.live(cur) && keyof(cur, n) == keyof(q, n) implies
+            (if mch(cur, q) { forall|r: Seq<Value>| #![trigger b.live(r)] b.live(r) <==> ((a.live(r) && r != cur) || r == mo(cur, q)) }
+             else { forall|r: Seq<Value>| #![trigger b.live(r)] b.live(r) <==> a.live(r) }) by {
+            let c = choose|c: RowId| #[trigger] a.idx().contains_key(c) && a.rows()[c.ix() as int] == cur;
+            assert(c == id);
+            assert(cur == cur0);
+            assert forall|r: Seq<Value>| #![trigger b.live(r)] b.live(r) <==> ((a.live(r) && r != cur) || r == mo(cur, q)) by {
+                if b.live(r) {
+                    let d = choose|d: RowId| #[trigger] b.idx().contains_key(d) && b.rows()[d.ix() as int] == r;
+                    if d != newid {
+                        assert(a.idx().contains_key(d) && d != id);
+                        assert(b.rows()[d.ix() as int] == a.rows()[d.ix() as int]);
+                        assert(keyof(a.rows()[d.ix() as int], n) != keyof(cur0, n));
+                    }
+                }
+                if a.live(r) && r != cur {
+                    let d = choose|d: RowId| #[trigger] a.idx().contains_key(d) && a.rows()[d.ix() as int] == r;
+                    assert(d != id);
+                    assert(b.idx().contains_key(d)); assert(b.rows()[d.ix() as int] == r);
+                }
+                if r == mo(cur, q) { assert(b.idx().contains_key(newid)); assert(b.rows()[newid.ix() as int] == r); }
+            }
+        }
+        assert(a.live(cur0));
     } else {
-        forall|r: Seq<Value>| #[trigger] after(r) <==> (before(r) || r == q)
+        let id = choose|id: RowId| #[trigger] a.idx().contains_key(id) && keyof(a.rows()[id.ix() as int], n) == keyof(q, n) && !mch(a.rows()[id.ix() as int], q);
+        let cur0 = a.rows()[id.ix() as int];
+        assert forall|cur: Seq<Value>| #![trigger a.live(cur)] a.live(cur) && keyof(cur, n) == keyof(q, n) implies
+            (if mch(cur, q) { forall|r: Seq<Value>| #![trigger b.live(r)] b.live(r) <==> ((a.live(r) && r != cur) || r == mo(cur, q)) }
+             else { forall|r: Seq<Value>| #![trigger b.live(r)] b.live(r) <==> a.live(r) }) by {
+            let c = choose|c: RowId| #[trigger] a.idx().contains_key(c) && a.rows()[c.ix() as int] == cur;
+            assert(c == id);
+        }
+        assert(a.live(cur0));
+    }
+}
+
+/// trigger-only marker for the witness sequences
+pub open spec fn wit(ts: Seq<SortedWritesTable>, qs: Seq<Seq<Value>>) -> bool { true }
+
+/// `last` is `first` after applying the pending rows qs one after the other
+pub open spec fn chain(n_keys: nat, first: SortedWritesTable, last: SortedWritesTable, ts: Seq<SortedWritesTable>, qs: Seq<Seq<Value>>) -> bool {
+    &&& ts.len() == qs.len() + 1
+    &&& ts[0] == first
+    &&& ts.last() == last
+    &&& forall|k: int| 0 <= k < qs.len() ==> applied(n_keys, #[trigger] ts[k], qs[k], ts[k + 1])
+}
+
+pub proof fn lemma_chain_push(n: nat, first: SortedWritesTable, t0: SortedWritesTable, ts: Seq<SortedWritesTable>, qs: Seq<Seq<Value>>, q: Seq<Value>, t1: SortedWritesTable)
+    requires chain(n, first, t0, ts, qs), applied(n, t0, q, t1),
+    ensures chain(n, first, t1, ts.push(t1), qs.push(q)),
+{
+    let ts2 = ts.push(t1);
+    let qs2 = qs.push(q);
+    assert forall|k: int| 0 <= k < qs2.len() implies applied(n, #[trigger] ts2[k], qs2[k], ts2[k + 1]) by {
+        if k < qs.len() { assert(ts2[k] == ts[k] && ts2[k + 1] == ts[k + 1] && qs2[k] == qs[k]); }
+        else { assert(ts2[k] == t0 && ts2[k + 1] == t1 && qs2[k] == q); }
     }
 }
 
@@ -260,6 +374,13 @@ pub open spec fn applied(n_keys: nat, before: spec_fn(Seq<Value>) -> bool, q: Se
             final(self).wf(),
             final(self).n_keys == old(self).n_keys,
             final(self).sort_by == old(self).sort_by,
+            // C05: the final contents are the initial ones with every pending row applied through the merge function
+            exists|ts: Seq<SortedWritesTable>, qs: Seq<Seq<Value>>| #![trigger wit(ts, qs)] wit(ts, qs) && chain(old(self).n_keys as nat, *old(self), *final(self), ts, qs),
+//@ at entry
+        let ghost mut ts: Seq<SortedWritesTable> = seq![*self];
+        let ghost mut qs: Seq<Seq<Value>> = Seq::empty();
+//@ at tail
+        proof { assert(wit(ts, qs)); }
 //@ at closure 0 spec
             ensures r@.len() == 0
 //@ at closure 1 spec
@@ -280,6 +401,7 @@ pub open spec fn applied(n_keys: nat, before: spec_fn(Seq<Value>) -> bool, q: Se
                     self.wf_entries(),
                     self.wf_distinct(),
                     self.wf_indexed(),
+                    chain(n_keys as nat, *old(self), *self, ts, qs),
                     merge_keeps_key(n_keys as nat), n_keys == self.n_keys, scratch@.len() == 0,
                     self.n_keys == old(self).n_keys, self.sort_by == old(self).sort_by,
 //@ at before-loop 1
@@ -290,6 +412,7 @@ pub open spec fn applied(n_keys: nat, before: spec_fn(Seq<Value>) -> bool, q: Se
                     self.wf_entries(),
                     self.wf_distinct(),
                     self.wf_indexed(),
+                    chain(n_keys as nat, *old(self), *self, ts, qs),
                     merge_keeps_key(n_keys as nat), n_keys == self.n_keys, scratch@.len() == 0,
                     self.n_keys == old(self).n_keys, self.sort_by == old(self).sort_by,
 //@ at before-loop 2
@@ -301,8 +424,27 @@ pub open spec fn applied(n_keys: nat, before: spec_fn(Seq<Value>) -> bool, q: Se
                     self.wf_entries(),
                     self.wf_distinct(),
                     self.wf_indexed(),
+                    chain(n_keys as nat, *old(self), *self, ts, qs),
                     merge_keeps_key(n_keys as nat), n_keys == self.n_keys, scratch@.len() == 0,
                     self.n_keys == old(self).n_keys, self.sort_by == old(self).sort_by,
+//@ at loop 2 body-start
+                        let ghost t0 = *self;
+//@ at loop 2 body-end
+                        proof {
+                            assert(t0.wf());
+                            if self.rows().len() == t0.rows().len() { assert(step_same(n_keys as nat, t0, query@, *self)); }
+                            else if has_key(n_keys as nat, t0, query@) { assert(step_merge(n_keys as nat, t0, query@, *self)); }
+                            else {
+                                assert(t0.rows().len() <= u32::MAX);
+                                assert(self.rows() =~= t0.rows().push(query@));
+                                assert(self.idx() =~= t0.idx().insert(RowId { rep: t0.rows().len() as u32 }, hcs(keyof(query@, n_keys as nat))));
+                                assert(step_new(n_keys as nat, t0, query@, *self));
+                            }
+                            lemma_applied(n_keys as nat, t0, query@, *self);
+                            lemma_chain_push(n_keys as nat, *old(self), t0, ts, qs, query@, *self);
+                            ts = ts.push(*self);
+                            qs = qs.push(query@);
+                        }
 //@ at before-loop 3
                 #[verifier::loop_isolation(false)]
 //@ at loop 3 spec
@@ -311,6 +453,7 @@ pub open spec fn applied(n_keys: nat, before: spec_fn(Seq<Value>) -> bool, q: Se
                     self.wf_entries(),
                     self.wf_distinct(),
                     self.wf_indexed(),
+                    chain(n_keys as nat, *old(self), *self, ts, qs),
                     merge_keeps_key(n_keys as nat), n_keys == self.n_keys, scratch@.len() == 0,
                     self.n_keys == old(self).n_keys, self.sort_by == old(self).sort_by,
 //@ at before-loop 4
@@ -322,8 +465,27 @@ pub open spec fn applied(n_keys: nat, before: spec_fn(Seq<Value>) -> bool, q: Se
                     self.wf_entries(),
                     self.wf_distinct(),
                     self.wf_indexed(),
+                    chain(n_keys as nat, *old(self), *self, ts, qs),
                     merge_keeps_key(n_keys as nat), n_keys == self.n_keys, scratch@.len() == 0,
                     self.n_keys == old(self).n_keys, self.sort_by == old(self).sort_by,
+//@ at loop 4 body-start
+                        let ghost t0 = *self;
+//@ at loop 4 body-end
+                        proof {
+                            assert(t0.wf());
+                            if self.rows().len() == t0.rows().len() { assert(step_same(n_keys as nat, t0, query@, *self)); }
+                            else if has_key(n_keys as nat, t0, query@) { assert(step_merge(n_keys as nat, t0, query@, *self)); }
+                            else {
+                                assert(t0.rows().len() <= u32::MAX);
+                                assert(self.rows() =~= t0.rows().push(query@));
+                                assert(self.idx() =~= t0.idx().insert(RowId { rep: t0.rows().len() as u32 }, hcs(keyof(query@, n_keys as nat))));
+                                assert(step_new(n_keys as nat, t0, query@, *self));
+                            }
+                            lemma_applied(n_keys as nat, t0, query@, *self);
+                            lemma_chain_push(n_keys as nat, *old(self), t0, ts, qs, query@, *self);
+                            ts = ts.push(*self);
+                            qs = qs.push(query@);
+                        }
 //@ end-fn
 //@ end-impl
 
